@@ -147,7 +147,10 @@ def _ellipse_setup():
     reqs = {'free': lambda o: obs(o.fit_image(sma0=8.0, minsma=4.0, maxsma=14.0, step=0.3)),
             'fixcen': lambda o: obs(o.fit_image(sma0=8.0, minsma=4.0, maxsma=14.0, step=0.3, fix_center=True)),
             'fixpa': lambda o: obs(o.fit_image(sma0=8.0, minsma=4.0, maxsma=14.0, step=0.3, fix_pa=True, fix_eps=True)),
-            'one': lambda o: obs([o.fit_isophote(9.0)])}
+            'one': lambda o: obs([o.fit_isophote(9.0)]),
+            # the starting semi-major axis: taken from the call, or - when not given - from the geometry the object was built with
+            'sma6': lambda o: obs(o.fit_image(sma0=6.0, minsma=4.0, maxsma=14.0, step=0.3)),
+            'nosma0': lambda o: obs(o.fit_image(minsma=4.0, maxsma=14.0, step=0.3))}
     return mk, reqs
 
 
@@ -229,7 +232,7 @@ def kinds(quick):
         'StarFinder': dict(make=_finder_make('star'), reqs=fr, config=None, depth=3, subset=list(fr)),
         'DAOStarFinder_xycoords': dict(make=_finder_make('dao_xy'), reqs=fr, config=None, depth=3, subset=['img1', 'img2', 'img1_masked']),
         'IRAFStarFinder_xycoords': dict(make=_finder_make('iraf_xy'), reqs=fr, config=None, depth=3, subset=['img1', 'img2', 'img1_masked']),
-        'Ellipse': dict(make=emk, reqs=ereq, config=None, depth=2, subset=['free', 'fixcen', 'fixpa', 'one']),
+        'Ellipse': dict(make=emk, reqs=ereq, config=None, depth=2, subset=['free', 'fixcen', 'fixpa', 'one', 'sma6', 'nosma0']),
         'GriddedPSFModel': dict(make=gmk, reqs=greq, config=None, depth=3, subset=list(greq)),
         **{f'images_{k}': dict(make=_images_setup(k)[0], reqs=_images_setup(k)[1], config=None, depth=2, subset=['model_lb', 'model', 'resid_lb', 'resid'])
            for k in ('psf', 'iter_new1', 'iter_new2', 'iter_all')},
